@@ -86,7 +86,29 @@ def run(ctx):
         s = ''.join(rng.choice(words) for _ in range(rng.randrange(1, 10)))
         plines.append('P 4 %d %s' % (rng.choice([0, 1, 0x10, 0x11]), s.encode().hex()))
         plines.append('P 8 %d %s' % (rng.choice([0, 3, 0x21, 99]), bytes([rng.choice([0, 0x10, 0x20, 0x30, 0x40, 0x41])]).hex()))
+    # Blocks decoded directly (lzma_block_header_decode + lzma_block_buffer_decode) for every Check ID, supported or not:
+    # a valid Block is accepted whatever the ID (an unsupported Check is skipped, not compared)
+    okblock = []
+    for cid in range(16):
+        for _k in range(1 if ctx.quick() else 6):
+            sb = xzgen.stream([(xzgen.gen_data(rng, rng.randrange(1, 300)), [{'id': 'lzma2', 'dict_size': 4096}], {})], cid, rng)
+            okblock.append(len(plines)); plines.append('P 6 %d %s' % (cid, sb[12:].hex()))
+            g = bytearray(sb[12:]); g[(g[0] + 1) * 4 + rng.randrange(1, 6)] ^= 0x04      # damage in the compressed data
+            plines.append('P 6 %d %s' % (cid, bytes(g).hex()))
     pouts, pfails = run_lines(pdrv, plines)
+    # the same parser calls on the non-ASan build under two heap fill patterns: no verdict may depend on uninitialised memory
+    phdrv = compile_driver('hook', 'drv_parse.c', 'drv_parse')
+    pu = []
+    for fill in ('85', '170'):
+        os.environ['MALLOC_PERTURB_'] = fill
+        o_, f_ = run_lines(phdrv, plines); pu.append(o_)
+    os.environ.pop('MALLOC_PERTURB_', None)
+    for l, a, b in zip(plines, pu[0], pu[1]):
+        if a is not None and b is not None and a != b:
+            viol.append(dict(why='the result of a parser / Block decoder call depends on what happened to be in freshly allocated memory (%s vs %s)' % (a, b), line=l[:20000], stderr=''))
+    for i in okblock:
+        if pouts[i] is not None and pouts[i].strip() != '0':
+            viol.append(dict(why='a valid Block with Check ID %s decoded directly with lzma_block_buffer_decode returned %s' % (plines[i].split()[2], pouts[i]), line=plines[i][:20000], stderr=''))
     for f in pfails:
         viol.append(dict(why='parser crashed / sanitizer report / watchdog (rc %s)' % f[2], line=(f[0] or '')[:20000], stderr=f[1][-2500:]))
     for l, o in zip(plines, pouts):
